@@ -11,6 +11,7 @@ import (
 	"go.uber.org/zap/verif/props/c16"
 	"go.uber.org/zap/verif/props/c17"
 	"go.uber.org/zap/verif/props/c18"
+	"go.uber.org/zap/verif/props/c19"
 	"go.uber.org/zap/verif/props/c20"
 	"go.uber.org/zap/verif/props/encjson"
 )
@@ -28,5 +29,6 @@ func init() {
 	register("C16", "exploration", c16.Run, nil)
 	register("C18", "exploration", c18.Run, nil)
 	register("C15", "exploration", c15.Run, nil)
+	register("C19", "fault_enumeration", c19.Run, nil)
 	register("C02", "exploration", encjson.Run02, nil)
 }
